@@ -412,3 +412,17 @@ Definition cx_sched : list nat := [0; 1; 1; 0; 0; 1; 1; 1; 0; 0; 1; 1; 0; 1]%nat
 
 Lemma cx_quiescent : quiescent (mconf_run (mconf_init cx_progs) cx_sched) = true.
 Proof. vm_compute. reflexivity. Qed.
+
+(* At EVERY configuration reachable by any schedule (not only at quiescence) the content
+   map holds verified bytes only: a Fetch taking its atomic step there returns bytes whose
+   digest and size are those of the requested descriptor. *)
+Theorem conc_fetch_matches_memory (progs : list (list op)) (sched : list nat) d hash len :
+  snd (mem_step (c_store (mconf_run (mconf_init progs) sched)) (Fetch d)) = OBytes hash len ->
+  hash = d_dig d /\ len = d_size d.
+Proof.
+  pose proof (cinv_run progs sched _ (cinv_init progs)) as [_ _ Hcas _ _ _ _ _].
+  assert (H : cas_verified (m_cas (c_store (mconf_run (mconf_init progs) sched)))).
+  { rewrite Hcas. unfold seq_state. apply mem_run_verified. intros k c X. discriminate. }
+  simpl. destruct (get gkey_eqb (gk d) (m_cas (c_store (mconf_run (mconf_init progs) sched)))) as [c|] eqn:E; [|discriminate].
+  intro X. injection X as <- <-. apply (H _ _ E).
+Qed.
